@@ -14,7 +14,7 @@ use scroll::Pwrite;
 use serde_json::json;
 use simkit::rng::Xoshiro;
 use simkit::{ch, chance, probe, range};
-use test_assembler::{Endian, Section};
+use test_assembler::{Endian, Label, LabelMaker, Section};
 
 #[derive(Clone, Copy, Debug, PartialEq, Eq)]
 pub enum Arch {
@@ -1115,6 +1115,10 @@ pub fn gen_world(opts: &WorldOpts) -> World {
             synth = synth.set_linux_maps(maps.as_bytes());
         }
     }
+    if matches!(os, OsKind::MacOs | OsKind::Ios) && chance("dump.mac_streams", 1, 2) {
+        probe("e4.mac_streams");
+        synth = synth.add_stream(mac_crash_info_stream(e, adv)).add_stream(mac_bootargs_stream(e, adv));
+    }
     let uses_breakpad_info = chance("dump.breakpad_info", 1, 4);
     if uses_breakpad_info {
         // BreakpadInfo: validity, dump_thread_id, requesting_thread_id
@@ -1235,6 +1239,109 @@ fn rd32(b: &[u8], at: usize) -> Option<u32> {
     let be = BIG_ENDIAN.with(|b| b.get());
     b.get(at..at + 4).map(|x| if be { u32::from_be_bytes(x.try_into().unwrap()) } else { u32::from_le_bytes(x.try_into().unwrap()) })
 }
+
+/// `MozMacosCrashInfoStream`: a header with up to 20 record locations and the records themselves
+/// (fixed fields by version, then five C strings at `record_start_size`).  Adversarial worlds
+/// draw the shapes a damaged or newer writer produces.
+fn mac_crash_info_stream(e: Endian, adv: bool) -> SimpleStream {
+    let stream_type = md::MINIDUMP_STREAM_TYPE::MozMacosCrashInfoStream as u32;
+    let shape = if adv { ch("dump.mac.shape", 12) } else { 0 };
+    let version: u64 = [5u64, 4, 1, 5][ch("dump.mac.version", 4) as usize];
+    let fixed_size = |v: u64| -> u32 {
+        if v >= 5 {
+            40
+        } else if v >= 4 {
+            32
+        } else {
+            16
+        }
+    };
+    let nrec = 1 + ch("dump.mac.records", 3) as usize;
+    let start_size: u32 = match shape {
+        1 => 8,                          // smaller than the fixed part
+        2 => 4096,                       // beyond the record
+        3 => fixed_size(version) + 24,   // a newer writer: unknown fixed fields before the strings
+        _ => fixed_size(version),
+    };
+    let count: u32 = match shape {
+        4 => 25,
+        5 => u32::MAX,
+        6 => 0,
+        _ => nrec as u32,
+    };
+    let labels: Vec<Label> = (0..20).map(|_| Label::new()).collect();
+    let sizes: Vec<Label> = (0..20).map(|_| Label::new()).collect();
+    let mut sec = Section::with_endian(e).D32(stream_type).D32(count).D32(start_size);
+    for i in 0..20 {
+        sec = sec.D32(&sizes[i]).D32(&labels[i]);
+    }
+    let strings: [&[u8]; 5] = [b"/usr/lib/libsim.dylib", b"abort() called", b"sig \xf0\x9f\xa6\x80", b"0 1 2", b""];
+    for i in 0..20 {
+        if i >= nrec {
+            // unused slots: empty, or (adversarial) pointing far outside the file
+            if shape == 7 {
+                sizes[i].set_const(64);
+                labels[i].set_const(0xffff_fff0);
+            } else {
+                sizes[i].set_const(0);
+                labels[i].set_const(0);
+            }
+            continue;
+        }
+        let v = match shape {
+            8 if i == 1 => version ^ 1, // two versions in one stream
+            9 => 7,                      // newer than known
+            10 => 0,                     // older than any known
+            _ => version,
+        };
+        let mut rec = Section::with_endian(e).D64(stream_type as u64).D64(v);
+        if v >= 4 || v == 0 {
+            rec = rec.D64([3u64, u64::MAX, 0][i % 3]).D64(1);
+        }
+        if v >= 5 {
+            rec = rec.D64(0xdead_beef);
+        }
+        if shape == 3 {
+            rec = rec.append_repeated(0xAA, 24);
+        }
+        for (k, st) in strings.iter().enumerate() {
+            if shape == 11 && k == 2 {
+                rec = rec.append_bytes(&[0xff, 0xfe, 0x80]); // not UTF-8
+            } else {
+                rec = rec.append_bytes(st);
+            }
+            // the last string of the last record may lack its terminator
+            if !(adv && k == 4 && i + 1 == nrec && chance("dump.mac.unterminated", 1, 6)) {
+                rec = rec.D8(0);
+            }
+        }
+        let len = rec.size();
+        sizes[i].set_const(if adv && chance("dump.mac.short_record", 1, 8) { len / 2 } else { len });
+        sec = sec.mark(&labels[i]).append_section(rec);
+    }
+    SimpleStream { stream_type, section: sec }
+}
+
+/// `MozMacosBootargsStream`: a 64-bit RVA of a length-prefixed UTF-16 string.
+fn mac_bootargs_stream(e: Endian, adv: bool) -> SimpleStream {
+    let stream_type = md::MINIDUMP_STREAM_TYPE::MozMacosBootargsStream as u32;
+    let at = Label::new();
+    let shape = if adv { ch("dump.bootargs.shape", 5) } else { 0 };
+    let mut sec = Section::with_endian(e).D32(if shape == 1 { 0 } else { stream_type });
+    sec = match shape {
+        2 => sec.D64(u64::MAX - 2),
+        3 => sec.D64(0),
+        _ => sec.D64(&at),
+    };
+    let text: Vec<u16> = "-v keepsyms=1 \u{1f980}".encode_utf16().collect();
+    let declared = if shape == 4 { 2 * text.len() as u32 + 1 } else { 2 * text.len() as u32 };
+    sec = sec.mark(&at).D32(declared);
+    for u in &text {
+        sec = sec.D16(*u);
+    }
+    SimpleStream { stream_type, section: sec }
+}
+
 
 /// Point the exception stream's thread_context at the context of thread `tid` (minidump-synth
 /// leaves that location descriptor empty).  Pure byte surgery on the little-endian dump.
